@@ -1593,8 +1593,23 @@ def _np_repeat(a, repeats, axis=None):
     return a[tuple(idx)]
 
 
-def _np_cross(a, b, axis=None, **kw):
+def _np_cross(a, b, axisa=-1, axisb=-1, axisc=-1, axis=None, **kw):
     a, b = XArray.from_nested(a), XArray.from_nested(b)
+    if axis is not None:
+        axisa = axisb = axisc = axis
+    # np.cross(a, b, axisa, axisb): the vectors of a lie along axisa, those of b along axisb; both are moved last
+    def _last(x, ax):
+        ax = int(ax) % x.ndim if x.ndim else 0
+        if x.ndim <= 1 or ax == x.ndim - 1:
+            return x
+        order = [k for k in range(x.ndim) if k != ax] + [ax]
+        return x.transpose(*order)
+
+    a, b = _last(a, axisa), _last(b, axisb)
+    out_nd = max(a.ndim, b.ndim)
+    if out_nd >= 1 and int(axisc) % max(out_nd, 1) != out_nd - 1 and out_nd > 1:
+        raise XArrayError("cross: axisc other than the last axis is not modelled")
+    axis = None
     c3 = lambda x, y: [x[1] * y[2] - x[2] * y[1], x[2] * y[0] - x[0] * y[2], x[0] * y[1] - x[1] * y[0]]
     if a.shape == (3,) and b.shape == (3,):
         return XArray((3,), c3(a.data, b.data))
